@@ -36,9 +36,11 @@ PoolConfigs == {[kind |-> "pool", n |-> n, x |-> x, w |-> w, s |-> s] :
 HingeConfigs == {[kind |-> "hinge", n |-> n, c |-> c, h2 |-> h, variant |-> v] :
                    n \in 1..3, c \in 2..3, h \in {0, 1, 2, 4, 10}, v \in 1..2}
 MarginConfigs == {[kind |-> "margin", n |-> n, m2 |-> m, variant |-> v] : n \in 1..4, m \in {0, 1, 2, 5}, v \in 1..2}
+\* negative_log_likelihood(x, y, weights) = -(1/N) sum_i w[y_i] x[i, y_i] ; weights default to ones ; labels as for hinge
+NllConfigs == {[kind |-> "nll", n |-> n, c |-> c, variant |-> v, weighted |-> w] : n \in 1..3, c \in 1..3, v \in 1..2, w \in BOOLEAN}
 Configs == IF Kind \in {"sw1", "sw2"} THEN {c \in SwConfigs : c.dgiven \/ \A i \in 1..ND : c.d[i] = 1}
            ELSE IF Kind \in {"conv1", "conv2"} THEN ConvConfigs
-           ELSE IF Kind = "losses" THEN HingeConfigs \cup MarginConfigs ELSE PoolConfigs
+           ELSE IF Kind = "losses" THEN HingeConfigs \cup MarginConfigs \cup NllConfigs ELSE PoolConfigs
 
 \* deterministic fillers (the harness builds the same arrays)
 FillX(i) == ((i * 7) % 11) - 5          \* i = 0-based flat index
@@ -136,6 +138,9 @@ Hinge2Sum(c) == SeqSum([i \in 1..c.n |->
 MarginY(c, i) == IF (i + c.variant) % 2 = 0 THEN 1 ELSE -1
 Margin2Sum(c) == SeqSum([i \in 1..c.n |-> PosPart(c.m2 - 2 * MarginY(c, i) * (FillX(i - 1) - FillK(i - 1)))])
 
+NllW(c, j) == IF c.weighted THEN FillK(j) + 3 ELSE 1                  \* j 0-based; weights 1..5
+NllSum(c) == SeqSum([i \in 1..c.n |-> NllW(c, HingeLabel(c, i)) * HingeX(c, i, HingeLabel(c, i))])
+
 \* ---------------------------------------------------------------- expected outcome of every configuration
 Expected(c) ==
   CASE c.kind = "sw" ->
@@ -146,6 +151,7 @@ Expected(c) ==
                                kf |-> IF KF_C16_1(c) THEN "F-C16-1" ELSE ""]
          ELSE [accept |-> FALSE, kf |-> ""]
     [] c.kind = "hinge"  -> [accept |-> TRUE, num |-> Hinge2Sum(c), den |-> 2 * c.n, kf |-> ""]
+    [] c.kind = "nll"    -> [accept |-> TRUE, num |-> -NllSum(c), den |-> c.n, kf |-> ""]
     [] c.kind = "margin" -> [accept |-> TRUE, num |-> Margin2Sum(c), den |-> 2 * c.n, kf |-> ""]
     [] c.kind = "pool" ->
          IF PoolValid(c) THEN [accept |-> TRUE, shape |-> PoolOutShape(c), vals |-> PoolOut(c), kf |-> ""]
